@@ -211,6 +211,9 @@ func isIOErr(T *Terms, v ssa.Value, name string) bool {
 func runC11(r *Run, p *Prog) {
 	// N8: the remote error of an error frame keeps its name unless it is one of the four org.varlink.service errors
 	siblingRules(r, p, "C12", []string{"X2"}, "N8")
+	// N9: the remote error for an error frame is built without crashing: the Error value handed to the typed-error
+	// conversion has both members set on every path (the conversion asserts the dynamic type of Parameters)
+	siblingRules(r, p, "C12", []string{"X3"}, "N9")
 	ro := DiscoverRoles(p)
 	T := ro.T
 	cm := buildClientModel(p, ro)
